@@ -194,6 +194,13 @@ func (msg Message) Generate(w io.Writer, settings GenerateSettings) {
 }
 
 func writeMessageFieldUnmarshaller(name string, typ FieldType, w *iohelp.ErrorWriter, settings GenerateSettings, depth int) {
+	if (typ.Array != nil || typ.Map != nil) && strings.HasPrefix(name, "(") {
+		// a container nested in a container: name is an element expression like
+		// "(bbp.X)[i]"; the struct field unmarshaller handles arbitrary nesting
+		// given the element's address
+		writeStructFieldUnmarshaller("&((*"+name[1:]+")", typ, w, settings, depth)
+		return
+	}
 	if typ.Array != nil {
 		writeLineWithTabs(w, "%RECV = make([]%TYPE, iohelp.ReadUint32(r))", depth, name, typ.Array.goString(settings))
 		if typ.Array.Simple == typeByte {
